@@ -76,6 +76,7 @@ def mk0(rng, quick):
     scols_all = sorted(allcols)
     sql = "SELECT id, %s, %s FROM stream%s%s" % (", ".join(scols_all), ", ".join(sel), frm, wtxt)
     ops, rid = [], 0
+    shadow = rng.sample([alias[n] for n in names] + names, rng.choice([1, 2])) if rng.random() < 0.25 else []
     mode = rng.choice(["sync", "emit"])
     for _ in range(rng.choice([4, 6, 8])):
         r = rng.random()
@@ -85,6 +86,9 @@ def mk0(rng, quick):
             if rng.random() < 0.4:      # the stream row carries columns of its own that are named like the table's: they never stand in for m.loc / m.n
                 row["loc"] = "own%d" % rid
                 if rng.random() < 0.5: row["n"] = 77
+            if shadow:                  # ... nor does a column of the row named like the table or its alias (an object with loc / n, or a scalar)
+                for nm in shadow:
+                    row[nm] = rng.choice([{"loc": "shadow", "n": 99}, {"loc": "shadow"}, "text", 5])
             for c in scols_all:
                 v = rng.choice(pool[int(c[1]) - 1])
                 if rng.random() < 0.9: row[c] = v
